@@ -144,6 +144,80 @@ def run(ctx):
     if not okscan:
         raise AnalysisError('construct not understood: no first-accepting-reader loop in getreader')
 
+    # R-ASKED: a reader is returned only after its acceptance test was *called* with the caller's arguments
+    ctx.rule('R-ASKED', 'getreader returns a reader only under a call of its acceptance test (isMine / trial open)')
+    checker_names = set()
+    for st in iter_stmts(g.body):
+        if isinstance(st, ast.Assign) and isinstance(st.value, ast.Attribute) and st.value.attr == 'isMine':
+            checker_names |= set(t.id for t in st.targets if isinstance(t, ast.Name))
+        if isinstance(st, ast.FunctionDef):
+            if any(isinstance(c, ast.Call) and dotted(c.func) == 'testreader' for c in ast.walk(st)):
+                checker_names.add(st.name)
+    nret = 0
+    for st in iter_stmts(g.body):
+        if not isinstance(st, ast.Return) or st.value is None or '<locals>' in getattr(st, '_q', ''):
+            continue
+        # returns inside the nested trial-open helper are not returns of getreader
+        inner = False
+        par = getattr(st, '_parent', None)
+        guards = []
+        while par is not None and par is not g:
+            if isinstance(par, ast.FunctionDef):
+                inner = True
+            if isinstance(par, ast.If) and st_in(par.body, st):
+                guards.append(par.test)
+            par = getattr(par, '_parent', None)
+        if inner:
+            continue
+        nret += 1
+        asked = False
+        for t in guards:
+            for c in ast.walk(t):
+                if isinstance(c, ast.Call) and ((isinstance(c.func, ast.Name) and c.func.id in checker_names) or
+                                                (isinstance(c.func, ast.Attribute) and c.func.attr == 'isMine')) and (c.args or c.keywords):
+                    asked = True
+        if asked:
+            ctx.ok('R-ASKED', norm(st)[:40], 'src/PseudoNetCDF/%s getreader' % REG, 'under a call of %s' % sorted(checker_names))
+        else:
+            ctx.violation(Finding('R-ASKED', REG, 'getreader', st, 'a reader is returned without calling its acceptance test on the file (guards: %s): the reader is then chosen '
+                                  'by something other than the file content' % ([norm(t)[:50] for t in guards] or 'none')))
+    if not nret:
+        raise AnalysisError('construct not understood: getreader returns no reader')
+
+    # R-SNIFFAGREE: the ICARTT sniffer accepts every first line its reader accepts (finite case analysis of the sniffer on sample lines)
+    ctx.rule('R-SNIFFAGREE', 'ffi1001.isMine accepts exactly the first lines that ffi1001.__init__ accepts (comma and/or blank delimited "n, 1001")')
+    from .. import consteval
+    fm = src.mod('icarttfiles/ffi1001.py')
+    sn = fm.func('ffi1001.isMine')
+    rd = fm.func('ffi1001.__init__')
+    rtxt = norm(rd)
+    wsn = 'src/PseudoNetCDF/icarttfiles/ffi1001.py ffi1001.isMine'
+    if "if ',' in line: delim = ','" not in rtxt.replace('\n', ' ') and "delim = ','" not in rtxt or "split(line)[-1] != '1001'" not in rtxt:
+        ctx.undec('R-SNIFFAGREE', 'reader grammar', wsn, 'the reader no longer decides by split(line)[-1] with a comma-or-blank delimiter; samples not valid')
+    else:
+        accept = ['36, 1001\n', '36,1001\n', '36 1001\n', '36\t1001\n', '36 , 1001 \n', '36, 1001\r\n', '104,1001\n', '  36, 1001\n']
+        reject = ['36, 2110\n', '36 2310\n', 'hello world\n', '\n', '1001, 36\n']
+        hook = lambda n, L=None: None
+        res = {}
+        for L in accept + reject:
+            res[L] = consteval.run_block(sn.body, {}, (lambda L: (lambda n: L if isinstance(n, ast.Call) and isinstance(n.func, ast.Attribute) and n.func.attr == 'readline' else None))(L))
+        if any(v is consteval.UNK for v in res.values()):
+            # an exception inside the try (e.g. [-1] of an empty split) returns False in the sniffer; the evaluator yields UNK there
+            unk = [L for L, v in res.items() if v is consteval.UNK]
+            if set(unk) <= set(reject):
+                for L in unk:
+                    res[L] = False
+        if any(v is consteval.UNK for v in res.values()):
+            ctx.undec('R-SNIFFAGREE', 'isMine', wsn, 'sniffer outside the evaluated fragment for %r' % [L for L, v in res.items() if v is consteval.UNK][:2])
+        else:
+            wrong = [L for L in accept if not res[L]] + [L for L in reject if res[L]]
+            if wrong:
+                ctx.violation(Finding('R-SNIFFAGREE', 'icarttfiles/ffi1001.py', 'ffi1001.isMine', sn.body[0].body[0] if isinstance(sn.body[0], ast.Try) else sn.body[0],
+                                      'the sniffer %s the first line %r, which the reader %s: auto-detection and format=\'ffi1001\' disagree on this file' % (
+                                          'rejects' if wrong[0] in accept else 'accepts', wrong[0], 'accepts' if wrong[0] in accept else 'rejects')))
+            else:
+                ctx.ok('R-SNIFFAGREE', 'isMine', wsn, 'accepts %d sample first lines the reader accepts, rejects %d it rejects' % (len(accept), len(reject)))
+
     # R-ISMINEPURE
     n_ismine = 0
     anchored = set(['_getreader.py', 'core/_files.py', 'register.py'])
@@ -185,6 +259,13 @@ def run(ctx):
                     if isinstance(c, ast.Call) and dotted(c.func) == 'setattr' and c.args \
                             and isinstance(c.args[0], ast.Name) and c.args[0].id == clsparam:
                         bad.append((st, 'setattr on the class'))
+            # one-shot iterators at module / class level that the test reads: consumed by the first probe
+            for n in ast.walk(fn):
+                if isinstance(n, ast.Name) and isinstance(n.ctx, ast.Load) and n.id in m.assigns and n.id not in _locals(fn):
+                    for a in m.assigns[n.id] if isinstance(m.assigns[n.id], list) else [m.assigns[n.id]]:
+                        v = getattr(a, 'value', a)
+                        if isinstance(v, ast.GeneratorExp) or (isinstance(v, ast.Call) and dotted(v.func) in ('map', 'filter', 'zip', 'iter', 'reversed', 'enumerate', 'open')):
+                            bad.append((api_stmt(n), 'reads module-level %s, which is a one-shot iterator (%s): the first probe consumes it' % (n.id, norm(v)[:50])))
             if bad:
                 for st, why in bad:
                     ctx.violation(Finding('R-ISMINEPURE', m.relpath, q, st,
@@ -195,6 +276,18 @@ def run(ctx):
     ctx.floor('isMine classmethods', n_ismine, 8 if ctx.tier == 'quick' else 20)
     ctx.assumptions.append('isMine implementations are otherwise functions of the file content; reader '
                            'registration happens at import (class creation) only')
+
+
+def st_in(block, st):
+    for b in block:
+        if b is st or any(x is st for x in ast.walk(b)):
+            return True
+    return False
+
+
+def api_stmt(n):
+    from .. import api
+    return api.stmt_of(n)
 
 
 def _locals(fn):
